@@ -26,8 +26,8 @@ ASSUMPTIONS = [
     "symbolic results are compared after sympy.expand/Poly with symbols identified by name",
 ]
 
-QUICK = ["sys3_q", "sys2_q", "orders_q", "frac_q"]
-THOROUGH = ["sys3_t", "sys2_t", "cstr_t", "orders_t", "frac_t"]
+QUICK = ["sys3_q", "sys2_q", "orders_q", "frac_q", "phase_q", "hist_q"]
+THOROUGH = ["sys3_t", "sys2_t", "cstr_t", "orders_t", "frac_t", "phase_t", "feedmap_t", "hist_t"]
 # coverage (vacuity guard) is read on the small slice that takes all three generator actions
 ACTIONS = {
     "frac_q": ["GenAdd", "SetState", "Feed"],
@@ -68,7 +68,8 @@ def replay_case(case):
     """-> list of (key, observed, expected) disagreements."""
     cin = case["in"]
     bad = []
-    flags = {"feed": bool(cin["feed"]["on"]), "untouched": "-u" in case["cls"], "cls": case["cls"]}
+    flags = {"feed": bool(cin["feed"]["on"]), "untouched": "-u" in case["cls"], "cls": case["cls"],
+             "hist": len(cin.get("hist") or []), "phases": any(cin.get("sphase") or [])}
     for mode in _modes(cin):
         if mode.startswith("sym"):
             obs = kc.observe_symbolic(cin, mode[4:])
